@@ -18,6 +18,7 @@ USES = ["CLS", "PRINT A", "Z=INT(A)", "PLAY \"C\"", "SOUND 1,2", "HSCREEN 2", "H
         "LOCATE 1,2", "Z=VAL(A$)", "Z=INSTR(1,A$,\"A\")", "PALETTE 1,2", "HBUFF 1,10", "Z=JOYSTK(0)", "WIDTH 40", "Z$=STRING$(3,\"A\")"]
 USES += ["Z=INT(A)+VAL(A$)", "Z$=HEX$(3)+STR$(4)", "HPRINT(1,2),3", "PRINT A;INSTR(1,A$,\"A\")", "Z=BUTTON(0)+JOYSTK(1)+POINT(1,2)",
          "IF INKEY$=\"A\" THEN SOUND 1,2 ELSE PLAY \"C\"", "CLS:LOCATE 1,2:ATTR 1,2", "FOR I=INT(A) TO VAL(A$):HSET(I,1,2):NEXT"]
+DECOYS_CTRL = ["PRINT \"PAGE\x0cRUN ecb_sound\x0cEND\"", "A$=\"X\x1cPROCEDURE ecb_fake\x1cY\"", "DATA A\x0bRUN ecb_play\x0bB,\"C\x1dD\"", "REM \x1eRUN ecb_hdraw\x1e"]
 DECOYS = ["PRINT \"RUN ecb_play\"", "A$=\"procedure zz\"", "DATA RUN ecb_sound, PROCEDURE x", "REM RUN ecb_play", "'RUN ecb_hdraw(1)",
           "PRINT \": STRING<<>>\"", "DATA : STRING<<>>", "A$=\"RUN ecb_play\":B$=\"x\"", "PRINT \"A\";\"RUN ecb_cls\"", "REM : STRING<<>>",
           "DATA \"RUN ecb_hscreen\",RUN ecb_point"]
@@ -91,7 +92,7 @@ def main():
     for k, sub in enumerate(subsets):
         for size in ((32, 80, 16) if thorough or k % 4 == 0 else ((32, 16, 80)[k % 3],)):
             plan.append((list(sub), size, rng.choice(["prog", "a_b", "x1", "Game"]), ""))
-    for d in DECOYS:
+    for d in DECOYS + DECOYS_CTRL:
         for size in (32, 80):
             plan.append(([d, rng.choice(USES)], size, "prog", "comment" if d.startswith(("REM", "'")) else "DATA" if d.startswith("DATA") else "string-literal"))
     # line numbers of one to five digits
